@@ -267,21 +267,14 @@ namespace AIToolbox::MDP {
         setDiscount(discount);
         rewards_.setZero();
 
-        if ( toSync ) {
+        // Make transition matrix true probability. State-action pairs which
+        // have never been seen are not touched by sync(), so they stay
+        // self-absorbing.
+        for ( size_t a = 0; a < A; ++a )
+            transitions_[a].setIdentity();
+
+        if ( toSync )
             sync();
-            // Sync does not touch state-action pairs which have never been
-            // seen. To keep the model consistent we set all of them as
-            // self-absorbing.
-            for ( size_t a = 0; a < A; ++a )
-                for ( size_t s = 0; s < S; ++s )
-                    if ( experience_.getVisitsSum(s, a) == 0ul )
-                        transitions_[a](s, s) = 1.0;
-        }
-        else {
-            // Make transition matrix true probability
-            for ( size_t a = 0; a < A; ++a )
-                transitions_[a].setIdentity();
-        }
     }
 
     template <IsExperience E>
